@@ -161,5 +161,7 @@ func Spec_compare(criteriaWithWeights *model.WeightedCriteria, a1, a2 *model.Alt
 func (m *Majority) Spec_ParseParams(dm *model.DecisionMaker) interface{} {
 	var params MajorityHeuristicParams
 	utils.Spec_DecodeToStruct(dm.MethodParameters, &params)
+	// C20: a missing weight of a declared criterion is rejected when the request is parsed, not after the biases
+	dm.Criteria.Spec_ZipWithWeights(&params.Weights)
 	return params
 }
